@@ -133,12 +133,15 @@ ORACLE_ONLY = {}
 def params_line(ex):
     b = ex.get("backend", {})
     q = ex.get("bounded", {})
-    return "params drain=%d invalidBits=%d refreshAfterSample=%d catchAll=%d batchPct=%d reportFlush=%d keepUnreported=%d flushInvalid=%d replayCatch=%d follow=%d flushBeforeErase=%d" % (
+    fl = ex.get("faults", {})   # w2_faults: structural facts of the fault machine (Backend/Fault.lean, FCfg)
+    return "params drain=%d invalidBits=%d refreshAfterSample=%d catchAll=%d batchPct=%d reportFlush=%d keepUnreported=%d flushInvalid=%d replayCatch=%d follow=%d flushBeforeErase=%d patInLoop=%d readAborts=%d notifyAlways=%d" % (
         1 if q.get("drainPublish", True) else 0, b.get("invalidBits", 32), 1 if b.get("refreshAfterSample", True) else 0,
         1 if b.get("catchAllFormat", True) else 0, q.get("defaultPercent", 5), 1 if b.get("reportBeforeFlushCleanup", True) else 0,
         1 if b.get("cleanupKeepsUnreported", True) else 0, 0 if b.get("flushOnlyValidLoggers", False) else 1,
         1 if b.get("replayCatchesPerEvent", True) else 0, 1 if b.get("unboundedReadFollowsEmptyBuffers", True) else 0,
-        1 if b.get("flushBeforeLoggerErase", True) else 0)
+        1 if b.get("flushBeforeLoggerErase", True) else 0,
+        1 if fl.get("overrideFormatterCreatedInsideSinkLoopAfterFilter", True) else 0, 1 if fl.get("readPassHasNoCatch", True) else 0,
+        1 if fl.get("processHandlersNotifyUnconditionally", True) else 0)
 
 
 def run_script(hbin, name, lines, workdir):
@@ -202,8 +205,13 @@ def classify(impl, model):
         props |= {"C08"}
     if "w:" in diff:
         props |= {"C03", "C05", "C16"}
-    if "wthrow" in diff or "fthrow" in diff or "n:wfail" in diff or "n:ffail" in diff or "n:nobt" in diff:
+    if "wthrow" in diff or "fthrow" in diff or "n:wfail" in diff or "n:ffail" in diff or "n:nobt" in diff or \
+            "n:empty" in diff or "n:unhandled" in diff or "n:patfail" in diff or "dthrow" in diff or "n:dfail" in diff:
         props |= {"C10"}
+    if "n:patfail" in diff:
+        props |= {"C16"}
+    if "dthrow" in diff or "n:dfail" in diff:
+        props |= {"C03", "C05"}
     if "fl:" in diff or "done" in diff:
         props |= {"C06"}
     if "contexts=" in diff:
